@@ -232,6 +232,7 @@ type jShape struct {
 	want    func(v any, escapeHTML bool) ([]byte, bool) // expected encoding/json output; ok=false: encoding/json fails
 	wantAlt func(v any, escapeHTML bool) []byte         // maps: the output with the members in the other order
 	ptr     func(v any) any                             // &v
+	noPtrParity bool                                    // Marshal(v) and Marshal(&v) legitimately differ (pointer-receiver methods)
 	newp    func() any                                  // pointer to a zero value
 }
 
@@ -529,6 +530,299 @@ var jshapes = []jShape{
 			b = refQuote(b, v.T.s, esc)
 			return append(b, '}'), true
 		}},
+	{name: "fastmaps", hasMap: true, wantAlt: func(x any, esc bool) []byte { return fastWant(x.(jFast), esc, true) },
+		ptr: func(v any) any { x := v.(jFast); return &x }, newp: func() any { return new(jFast) },
+		mk: func() any {
+			v := jFast{}
+			which := vfIntIn(0, 4)
+			n := vfIntIn(0, 2)
+			if n == 0 && vfBool() {
+				return v // every map nil
+			}
+			k1, k2 := "m", symStr(vfLen)
+			switch which {
+			case 0:
+				v.S = map[string]string{}
+				if n > 0 {
+					v.S[k1] = symStr(1)
+				}
+				if n > 1 {
+					v.S[k2] = "<"
+				}
+			case 1:
+				v.L = map[string][]string{}
+				if n > 0 {
+					switch vfIntIn(0, 2) {
+					case 0:
+						v.L[k1] = nil
+					case 1:
+						v.L[k1] = []string{}
+					default:
+						v.L[k1] = []string{"a", symStr(1)}
+					}
+				}
+				if n > 1 {
+					if vfBool() {
+						v.L[k2] = nil
+					} else {
+						v.L[k2] = []string{"&"}
+					}
+				}
+			case 2:
+				v.B = map[string]bool{}
+				if n > 0 {
+					v.B[k1] = vfBool()
+				}
+				if n > 1 {
+					v.B[k2] = vfBool()
+				}
+			case 3:
+				v.I = map[string]any{}
+				if n > 0 {
+					switch vfIntIn(0, 2) {
+					case 0:
+						v.I[k1] = nil
+					case 1:
+						v.I[k1] = symStr(1)
+					default:
+						v.I[k1] = []string(nil)
+					}
+				}
+				if n > 1 {
+					v.I[k2] = vfBool()
+				}
+			case 4:
+				v.R = map[string]RawMessage{}
+				if n > 0 {
+					if vfBool() {
+						v.R[k1] = RawMessage(`[1, "<"]`)
+					} else {
+						v.R[k1] = nil
+					}
+				}
+				if n > 1 {
+					v.R[k2] = RawMessage(`true`)
+				}
+			}
+			return v
+		},
+		want: func(x any, esc bool) ([]byte, bool) { return fastWant(x.(jFast), esc, false), true }},
+	{name: "addrV", noPtrParity: true, ptr: func(v any) any { x := v.(jArrs); return &x }, newp: func() any { return new(jArrs) },
+		mk:   func() any { return mkArrs() },
+		want: func(x any, esc bool) ([]byte, bool) { return arrsWant(x.(jArrs), false), true }},
+	{name: "addrP", ptr: func(v any) any { x := v.(*jArrs); return &x }, newp: func() any { return new(*jArrs) },
+		mk:   func() any { v := mkArrs(); return &v },
+		want: func(x any, esc bool) ([]byte, bool) { return arrsWant(*x.(*jArrs), true), true }},
+}
+
+// ---- the five specialised map codecs (map[string]string, map[string][]string, map[string]bool, map[string]any,
+// map[string]RawMessage), each with a sorted and an unsorted path
+type jFast struct {
+	S map[string]string
+	L map[string][]string
+	B map[string]bool
+	I map[string]any
+	R map[string]RawMessage
+}
+
+// keys2: the (at most two) keys of m in ascending order, or descending when rev.
+func keys2[V any](m map[string]V, rev bool) []string {
+	var ks []string
+	for k := range m {
+		ks = append(ks, k)
+	}
+	if len(ks) == 2 && ((ks[1] < ks[0]) != rev) {
+		ks[0], ks[1] = ks[1], ks[0]
+	}
+	return ks
+}
+
+func refStrs(b []byte, l []string, esc bool) []byte {
+	if l == nil {
+		return append(b, "null"...)
+	}
+	b = append(b, '[')
+	for i, e := range l {
+		if i > 0 {
+			b = append(b, ',')
+		}
+		b = refQuote(b, e, esc)
+	}
+	return append(b, ']')
+}
+
+func fastWant(v jFast, esc bool, rev bool) []byte {
+	b := append([]byte(nil), `{"S":`...)
+	if v.S == nil {
+		b = append(b, "null"...)
+	} else {
+		b = append(b, '{')
+		for i, k := range keys2(v.S, rev) {
+			if i > 0 {
+				b = append(b, ',')
+			}
+			b = refQuote(b, k, esc)
+			b = append(b, ':')
+			b = refQuote(b, v.S[k], esc)
+		}
+		b = append(b, '}')
+	}
+	b = append(b, `,"L":`...)
+	if v.L == nil {
+		b = append(b, "null"...)
+	} else {
+		b = append(b, '{')
+		for i, k := range keys2(v.L, rev) {
+			if i > 0 {
+				b = append(b, ',')
+			}
+			b = refQuote(b, k, esc)
+			b = append(b, ':')
+			b = refStrs(b, v.L[k], esc)
+		}
+		b = append(b, '}')
+	}
+	b = append(b, `,"B":`...)
+	if v.B == nil {
+		b = append(b, "null"...)
+	} else {
+		b = append(b, '{')
+		for i, k := range keys2(v.B, rev) {
+			if i > 0 {
+				b = append(b, ',')
+			}
+			b = refQuote(b, k, esc)
+			b = append(b, ':')
+			b = refBool(b, v.B[k])
+		}
+		b = append(b, '}')
+	}
+	b = append(b, `,"I":`...)
+	if v.I == nil {
+		b = append(b, "null"...)
+	} else {
+		b = append(b, '{')
+		for i, k := range keys2(v.I, rev) {
+			if i > 0 {
+				b = append(b, ',')
+			}
+			b = refQuote(b, k, esc)
+			b = append(b, ':')
+			switch y := v.I[k].(type) {
+			case nil:
+				b = append(b, "null"...)
+			case string:
+				b = refQuote(b, y, esc)
+			case bool:
+				b = refBool(b, y)
+			case []string:
+				b = refStrs(b, y, esc)
+			}
+		}
+		b = append(b, '}')
+	}
+	b = append(b, `,"R":`...)
+	if v.R == nil {
+		b = append(b, "null"...)
+	} else {
+		b = append(b, '{')
+		for i, k := range keys2(v.R, rev) {
+			if i > 0 {
+				b = append(b, ',')
+			}
+			b = refQuote(b, k, esc)
+			b = append(b, ':')
+			if v.R[k] == nil {
+				b = append(b, "null"...)
+			} else {
+				b = refCompact(b, v.R[k], esc)
+			}
+		}
+		b = append(b, '}')
+	}
+	return append(b, '}')
+}
+
+// ---- addressability: a MarshalJSON method on the pointer receiver is used exactly where encoding/json can take the
+// element's address (slice elements and pointees always; fields and array elements only under an addressable parent;
+// map values never).
+type jPM struct{ v int8 }
+
+func (m *jPM) MarshalJSON() ([]byte, error) { return refInt(nil, int64(m.v)), nil }
+
+type jArrs struct {
+	A  [2]jPM
+	S  []jPM
+	M  map[string]jPM
+	P  *jPM
+	V  jPM
+	AP [1]*jPM
+	N  struct{ W jPM }
+}
+
+func mkArrs() jArrs {
+	v := jArrs{A: [2]jPM{{int8(vfByte())}, {2}}, V: jPM{6}}
+	if vfBool() {
+		v.S = []jPM{{int8(vfByte())}}
+	}
+	if vfBool() {
+		v.M = map[string]jPM{"k": {4}}
+	}
+	if vfBool() {
+		v.P = &jPM{5}
+		v.AP[0] = &jPM{int8(vfByte())}
+	}
+	v.N.W.v = 9
+	return v
+}
+
+func arrsWant(v jArrs, addressable bool) []byte {
+	pm := func(b []byte, m jPM, addr bool) []byte {
+		if addr {
+			return refInt(b, int64(m.v))
+		}
+		return append(b, "{}"...)
+	}
+	b := append([]byte(nil), `{"A":[`...)
+	b = pm(b, v.A[0], addressable)
+	b = append(b, ',')
+	b = pm(b, v.A[1], addressable)
+	b = append(b, `],"S":`...)
+	if v.S == nil {
+		b = append(b, "null"...)
+	} else {
+		b = append(b, '[')
+		for i := range v.S {
+			if i > 0 {
+				b = append(b, ',')
+			}
+			b = pm(b, v.S[i], true)
+		}
+		b = append(b, ']')
+	}
+	b = append(b, `,"M":`...)
+	if v.M == nil {
+		b = append(b, "null"...)
+	} else {
+		b = append(b, `{"k":{}}`...)
+	}
+	b = append(b, `,"P":`...)
+	if v.P == nil {
+		b = append(b, "null"...)
+	} else {
+		b = pm(b, *v.P, true)
+	}
+	b = append(b, `,"V":`...)
+	b = pm(b, v.V, addressable)
+	b = append(b, `,"AP":[`...)
+	if v.AP[0] == nil {
+		b = append(b, "null"...)
+	} else {
+		b = pm(b, *v.AP[0], true)
+	}
+	b = append(b, `],"N":{"W":`...)
+	b = pm(b, v.N.W, addressable)
+	return append(b, `}}`...)
 }
 
 func mapsWantAlt(x any, esc bool) []byte {
